@@ -327,6 +327,8 @@ class Check:
                             prog_line = ln.strip()
                 crashes.append(dict(ev="crash", fam=fam, prog=k, kind=(m.group(1)[:60] if m else "crash"), text=((m.group(1) if m else "crash") + " | " + " | ".join(frames))[:900], program=prog_line[:4000]))
                 start = k + 1
+                if "did not return" in crashes[-1]["text"]:
+                    break                           # a call that blocks: one reproduced stall is the finding; every further one costs minutes
             crashfile = prefix + ".crash.ndjson"
             with open(crashfile, "w") as fh:
                 for cr in crashes:
